@@ -29,7 +29,9 @@ def gen(draw):
     extra = ["x%d" % i for i in range(draw(st.integers(0, 2)))]
     order = draw(st.permutations(bam_samples + extra))
     info_defs = [d for d in vm.EXTRA_INFO if draw(st.booleans())]
-    fmt_extra = [d for d in vm.EXTRA_FORMAT if d[0] != "PL" and draw(st.integers(0, 2)) == 0]
+    distrust = draw(st.integers(0, 4)) == 0
+    # PL (phred genotype likelihoods) is read by the tool only when genotypes are distrusted
+    fmt_extra = [d for d in vm.EXTRA_FORMAT if (d[0] != "PL" and draw(st.integers(0, 2)) == 0) or (d[0] == "PL" and distrust and draw(st.booleans()))]
     filters = ["q10", "lowcov"] if draw(st.booleans()) else []
     pre = {s: draw(st.sampled_from(["none", "none", "PS", "HP"])) for s in order}
     use_pq = draw(st.booleans())
@@ -70,7 +72,7 @@ def gen(draw):
     case["opts"] = {"tag": draw(st.sampled_from(["PS", "PS", "HP"])), "only_snvs": draw(st.integers(0, 4)) == 0,
                     "samples": draw(st.sampled_from([None, None] + [[s] for s in bam_samples])),
                     "chromosomes": draw(st.sampled_from([None, None] + [[c] for c in chroms])),
-                    "distrust": draw(st.integers(0, 4)) == 0, "include_homozygous": draw(st.integers(0, 5)) == 0}
+                    "distrust": distrust, "include_homozygous": draw(st.integers(0, 5)) == 0}
     return case
 
 
@@ -249,6 +251,8 @@ class PassthroughPart:
         ctx.label("tag-" + o["tag"])
         if o.get("distrust"):
             ctx.label("distrust-genotypes")
+            if any(d[0] == "PL" for d in case["model"]["format_defs"]):
+                ctx.label("distrust-with-PL")
         if edited:
             ctx.label("edited")
         for k in sorted(set(case["kinds"])):
